@@ -374,7 +374,7 @@ def close_keeps_listeners(ctx, prog):
     """closing (or dropping) a channel does not detach its listeners ahead of the Channel.Close: what the broker sends between the
     client's Close and its CloseOk (outstanding confirmations, returns) still reaches them"""
     import c12
-    ex = io_executor(ctx, prog, extra=cell_summaries() + [(r'^BTreeMap::<String, AMQPValue>::new$', lambda e, s, f, a: [(s, Agg({}, 'FieldTable', 'EMPTY-TABLE'))])])
+    ex = io_executor(ctx, prog, extra=cell_summaries() + [(r'^BTreeMap::<String, AMQPValue>::new$|^<BTreeMap<String, AMQPValue> as Default>::default$', lambda e, s, f, a: [(s, Agg({}, 'FieldTable', 'EMPTY-TABLE'))])])
     bad = []
     for opname in ('Channel.close', 'Channel.close_impl'):
         ops = [o for o in c12.OPS if o[0] == opname]
